@@ -181,6 +181,15 @@ REFS = [
     (FAM_CTXT, "no-node-globals", "global", "v9 = @;", None),
     (FAM_CTXT, "no-node-globals", "setImmediate", "@(f9);", None),
     (FAM_CTXT, "no-node-globals", "clearImmediate", "v9 = [@];", None),
+    # the reference under a TypeScript angle-bracket assertion (.ts only) and as an assignment TARGET
+    (FAM_CTXT, "no-process-global", "process", "(<any>@).env;", "ts"),
+    (FAM_CTXT, "no-node-globals", "setImmediate", "v9 = <number>@(f9);", "ts"),
+    (FAM_CTXT, "no-process-global", "process", "@ = null;", None),
+    (FAM_CTXT, "no-node-globals", "Buffer", "[@] = o9;", None),
+    (FAM_CTXT, "no-node-globals", "global", "({ @ } = o9);", None),
+    (FAM_CTXT, "no-node-globals", "setImmediate", "({ a9: @ } = o9);", None),
+    (FAM_CTXT, "no-process-global", "process", "for (@ in o9) {}", None),
+    (FAM_CTXT, "no-process-global", "process", "@++;", None),
     # the local side of an export specifier without alias (module level only)
     (FAM_CTXT, "no-process-global", "process", "export { @ };", "top"),
     (FAM_CTXT, "no-node-globals", "Buffer", "export { @, setImmediate };", "top"),
@@ -455,6 +464,8 @@ def wrapper_chains(rng, tier):
     for d in (2, 3, 4):
         for _ in range(n):
             chains.append([rng.choice(WRAPPERS)[0] for _ in range(d)])
+    # very deep nesting between binding and reference (a traversal that gives up below some depth)
+    chains += [["arrow"] * 100, ["block"] * 300, ["if"] * 260, ["function", "block", "arrow"] * 40]
     return chains
 
 
